@@ -959,6 +959,125 @@ Section Multivectors.
 
 End Multivectors.
 
+(* ---------- the statements of Props/C14.v, packaged ---------- *)
+Lemma default_instance A graded :
+  let D := mk_default (a_sig A) (a_start A) graded in a_sig A = a_sig D /\ a_start A = a_start D.
+Proof. split; reflexivity. Qed.
+
+Theorem phi_bijection A D : wf_alg A = true -> wf_alg D = true ->
+  a_sig A = a_sig D -> a_start A = a_start D ->
+  alg_len A = alg_len D /\
+  phi_key A D (pss_key A) = pss_key D /\
+  forall I, 0 <= I < alg_len A ->
+    0 <= phi_key A D I < alg_len D /\
+    phi_key D A (phi_key A D I) = I /\ phi_sign D A (phi_key A D I) = phi_sign A D I /\
+    popcount (phi_key A D I) = popcount I /\
+    (phi_sign A D I = 1 \/ phi_sign A D I = -1).
+Proof.
+  intros HA HD Hs Ht. split; [apply (same_len A D HA HD Hs)|].
+  split; [apply (phi_pss A D HA HD Hs Ht)|]. intros I HI.
+  split; [apply (phi_range A D HA HD Hs Ht I HI)|].
+  destruct (phi_inv A D HA HD Hs Ht I HI) as [E1 E2]. split; [exact E1|]. split; [exact E2|].
+  split; [apply (phi_popcount A D HA HD Hs Ht I HI) | apply (phi_sign_unit A D HA HD Hs Ht I HI)].
+Qed.
+
+Section Packaged.
+  Variable R : Type.
+  Variables (rO rI : R) (radd rmul rsub : R -> R -> R) (ropp : R -> R).
+  Hypothesis Rth : ring_theory rO rI radd rmul rsub ropp (@eq R).
+  Local Notation O := (mkOps R radd rsub rmul ropp rO rI).
+  Local Notation "x == y" := (Sparse.equiv rO rI radd rmul rsub ropp x y) (at level 70, no associativity).
+  Local Notation relabel := (relabel R rO rI rmul ropp).
+  Local Notation mscal := (mscal R rmul).
+  Local Notation sg := (Ops.sg rO rI ropp).
+  Local Notation iso A D := (wf_alg A = true /\ wf_alg D = true /\ a_sig A = a_sig D /\ a_start A = a_start D).
+  Local Notation T l := (l R rO rI radd rmul rsub ropp Rth) (only parsing).
+
+  Theorem relabel_wf_coeff A D : iso A D -> forall (x : mv R), wfmv A x ->
+    wfmv D (relabel A D x) /\
+    forall K, 0 <= K < alg_len A -> coeff O (phi_key A D K) (relabel A D x) = rmul (sg (phi_sign A D K)) (coeff O K x).
+  Proof.
+    intros (HA & HD & Hs & Ht) x Hx. split.
+    - apply (wfmv_relabel R rO rI rmul ropp A D HA HD Hs Ht x Hx).
+    - intros K HK. apply (T coeff_relabel A D HA HD Hs Ht x K Hx HK).
+  Qed.
+
+  Theorem iso_gp A D : iso A D -> forall (x y : mv R), wfmv A x -> wfmv A y ->
+    relabel A D (gp O A x y) == gp O D (relabel A D x) (relabel A D y).
+  Proof. intros (HA & HD & Hs & Ht). apply (T relabel_gp A D HA HD Hs Ht). Qed.
+
+  Theorem iso_grade_ops A D : iso A D -> forall (x y : mv R), wfmv A x -> wfmv A y ->
+    relabel A D (op O A x y) == op O D (relabel A D x) (relabel A D y) /\
+    relabel A D (ip O A x y) == ip O D (relabel A D x) (relabel A D y) /\
+    relabel A D (lc O A x y) == lc O D (relabel A D x) (relabel A D y) /\
+    relabel A D (rc O A x y) == rc O D (relabel A D x) (relabel A D y) /\
+    relabel A D (sp O A x y) == sp O D (relabel A D x) (relabel A D y) /\
+    relabel A D (cp O A x y) == cp O D (relabel A D x) (relabel A D y) /\
+    relabel A D (acp O A x y) == acp O D (relabel A D x) (relabel A D y) /\
+    relabel A D (add O A x y) == add O D (relabel A D x) (relabel A D y) /\
+    relabel A D (sub O A x y) == sub O D (relabel A D x) (relabel A D y) /\
+    relabel A D (neg O A x) == neg O D (relabel A D x) /\
+    relabel A D (reverse O A x) == reverse O D (relabel A D x) /\
+    relabel A D (involute O A x) == involute O D (relabel A D x) /\
+    relabel A D (conjugate O A x) == conjugate O D (relabel A D x).
+  Proof.
+    intros (HA & HD & Hs & Ht) x y Hx Hy.
+    split; [apply (T relabel_op A D HA HD Hs Ht x y Hx Hy)|].
+    split; [apply (T relabel_ip A D HA HD Hs Ht x y Hx Hy)|].
+    split; [apply (T relabel_lc A D HA HD Hs Ht x y Hx Hy)|].
+    split; [apply (T relabel_rc A D HA HD Hs Ht x y Hx Hy)|].
+    split; [apply (T relabel_sp A D HA HD Hs Ht x y Hx Hy)|].
+    split; [apply (T relabel_cp A D HA HD Hs Ht x y Hx Hy)|].
+    split; [apply (T relabel_acp A D HA HD Hs Ht x y Hx Hy)|].
+    split; [apply (T relabel_add A D HA HD Hs Ht x y Hx Hy)|].
+    split; [apply (T relabel_sub A D HA HD Hs Ht x y Hx Hy)|].
+    split; [apply (T relabel_neg A D HA HD Hs Ht x Hx)|].
+    split; [apply (T relabel_reverse A D HA HD Hs Ht x Hx)|].
+    split; [apply (T relabel_involute A D HA HD Hs Ht x Hx) | apply (T relabel_conjugate A D HA HD Hs Ht x Hx)].
+  Qed.
+
+  Theorem iso_grade_sel A D : iso A D -> forall grades (x : mv R), wfmv A x ->
+    match grade_sel O A grades x with
+    | Ok r => exists r', grade_sel O D grades (relabel A D x) = Ok r' /\ relabel A D r == r'
+    | Err e => grade_sel O D grades (relabel A D x) = Err e
+    end.
+  Proof. intros (HA & HD & Hs & Ht). apply (T relabel_grade_sel A D HA HD Hs Ht). Qed.
+
+  Theorem iso_duals A D : iso A D -> forall (x y : mv R), wfmv A x -> wfmv A y ->
+    let o := sg (phi_sign A D (pss_key A)) in
+    relabel A D (hodge O A x) == mscal o (hodge O D (relabel A D x)) /\
+    relabel A D (unhodge O A x) == mscal o (unhodge O D (relabel A D x)) /\
+    relabel A D (unpolarity O A x) == mscal o (unpolarity O D (relabel A D x)) /\
+    relabel A D (rp O A x y) == mscal o (rp O D (relabel A D x) (relabel A D y)) /\
+    match polarity O A x with
+    | Ok r => exists r', polarity O D (relabel A D x) = Ok r' /\ relabel A D r == mscal o r'
+    | Err e => polarity O D (relabel A D x) = Err e
+    end /\
+    (forall k, match dual O A k x with
+               | Ok r => exists r', dual O D k (relabel A D x) = Ok r' /\ relabel A D r == mscal o r'
+               | Err e => dual O D k (relabel A D x) = Err e
+               end) /\
+    (forall k, match undual O A k x with
+               | Ok r => exists r', undual O D k (relabel A D x) = Ok r' /\ relabel A D r == mscal o r'
+               | Err e => undual O D k (relabel A D x) = Err e
+               end).
+  Proof.
+    intros (HA & HD & Hs & Ht) x y Hx Hy. cbv zeta.
+    split; [apply (T relabel_hodge A D HA HD Hs Ht x Hx)|].
+    split; [apply (T relabel_unhodge A D HA HD Hs Ht x Hx)|].
+    split; [apply (T relabel_unpolarity A D HA HD Hs Ht x Hx)|].
+    split; [apply (T relabel_rp A D HA HD Hs Ht x y Hx Hy)|].
+    split; [apply (T relabel_polarity A D HA HD Hs Ht x Hx)|].
+    split; intros k; [apply (T relabel_dual A D HA HD Hs Ht k x Hx) | apply (T relabel_undual A D HA HD Hs Ht k x Hx)].
+  Qed.
+
+  Theorem iso_spelled_coeff A D : iso A D -> forall n (x : mv R),
+    NoDup n -> (forall g, In g n -> In g (alg_vecs A)) -> wfmv A x ->
+    exists v, spelled_coeff R rO rI radd rmul rsub ropp A n x = Some v
+              /\ spelled_coeff R rO rI radd rmul rsub ropp D n (relabel A D x) = Some v.
+  Proof. intros (HA & HD & Hs & Ht). apply (T relabel_spelled_coeff A D HA HD Hs Ht). Qed.
+End Packaged.
+
 (* ====================================================================================== *)
 (** * 4. Concrete instances (non-vacuity) *)
 
@@ -1059,3 +1178,12 @@ Example ex_relabel_hodge_values :
    mscal Z Z.mul (-1) (hodge Zops ex_D2 (zrelabel ex_A2 ex_D2 x)))
   = ([(0, 5); (2, -2); (3, -7)], [(0, -5); (2, 2); (3, 7)], [(0, 5); (2, -2); (3, -7)]).
 Proof. vm_compute. reflexivity. Qed.
+
+Example ex_instances :
+  wf_alg ex_pga3d = true /\ wf_alg ex_D = true /\ a_sig ex_pga3d = a_sig ex_D /\ a_start ex_pga3d = a_start ex_D /\
+  map (fun I => (phi_key ex_pga3d ex_D I, phi_sign ex_pga3d ex_D I)) (Alg.zrange 16)
+  = [(0, 1); (2, 1); (4, 1); (6, 1); (8, 1); (10, -1); (12, 1); (14, 1);
+     (1, 1); (3, 1); (5, 1); (7, -1); (9, 1); (11, 1); (13, -1); (15, 1)] /\
+  table_iso_b ex_pga3d ex_D = true /\
+  phi_sign ex_A2 ex_D2 (pss_key ex_A2) = -1 /\ table_iso_b ex_A2 ex_D2 = true.
+Proof. vm_compute. repeat split. Qed.
